@@ -165,6 +165,17 @@ D.update({
  "C20-r7-m3": ("C20", "both fixpoint loops become a work list drained in HashSet order, the clock checked after each block", "hash order and a degree cut together, with a local array assigned in one block and updated in a nested later one"),
 })
 
+D.update({
+ "C02-r8-m1": ("C02", "the per-file filter looks at the first primary label only", "a name defined in a named file and again in a file it includes: the duplicate report's first label is in the include"),
+ "C02-r8-m2": ("C02", "a version component that overflows parses as 0 (`unwrap_or_default`) instead of saturating", "`pragma circom 2.1.18446744073709551616;`: read as 2.1.0 and accepted"),
+ "C03-r8-m1": ("C03", "the per-file filter looks at the first primary label only", "the duplicate-definition report with its first label in an included-only file and the second in a user file"),
+ "C03-r8-m2": ("C03", "the cached lifting reports of a definition are taken after the passes ran instead of before", "a template that instantiates itself and ignores an output of the inner instance: the look-up of the definition under analysis fails"),
+ "C17-r8-m1": ("C17", "take_template and take_template_reports swapped in analyze_template", "a template with a CFG-stage report instantiated by another one; hash order decides whether the report is seen"),
+ "C17-r8-m2": ("C17", "TemplateLibrary::new sorts files by 'is user input' instead of by file id (stable sort over HashMap order)", "one name defined in two files, library mode, and a hash order"),
+ "C19-r8-m1": ("C19", "the guard 'a library directory never answers to a dot-prefixed include' becomes `starts_with(\"./\")`", "an unresolvable `../x` include and a -L directory beside whose parent such a file exists"),
+ "C19-r8-m2": ("C19", "a -L library file keeps its command-line spelling instead of the canonical path", "a -L file spelled non-canonically, reached through the library and also locally or by name: read twice"),
+})
+
 matrix = {}
 mp = "/verif/seeded/MATRIX.txt"
 if os.path.exists(mp):
